@@ -277,6 +277,9 @@ recurseTail:
 				}
 			}
 			obj = o[len(o)-1]
+			// A procedure object found inside a procedure body is pushed,
+			// not executed, also when it is the last element.
+			execProc = false
 			goto recurseTail
 		} else {
 			intp.Stack = append(intp.Stack, o)
